@@ -850,9 +850,14 @@ class API:
                         "Method is not a unary method."
                     ]
                     continue
-                top_level_request_message = self.messages[
-                    method_descriptor.input_type.lstrip(".")
-                ]
+                # The request message may live in an imported (not generated)
+                # package, so look through all protos.
+                input_type = method_descriptor.input_type.lstrip(".")
+                top_level_request_message = next(
+                    proto.all_messages[input_type]
+                    for proto in self.all_protos.values()
+                    if input_type in proto.all_messages
+                )
                 selector_errors = []
                 for field_str in method_settings.auto_populated_fields:
                     if field_str not in top_level_request_message.fields:
